@@ -2,7 +2,7 @@
 import hashlib
 from . import core
 from .core import hx, unhx
-from .appcase import AppCase
+from .appcase import AppCase, ENV_NAMES
 
 TODAY = '2021/01/28'
 
@@ -35,7 +35,44 @@ def run_apps(ctx, cases, opname=lambda c: 'app:' + c.meta.get('kind', '?'), what
         if not ok:
             ctx.problem('corr', (what or 'observation of `%s` differs from the model') % c.meta.get('kind', '?') if '%s' in (what or '%s') else what, c,
                         {'impl': summarize(i), 'model': summarize(m)})
+    cross_check_real(ctx, cases, impl)
     return impl, model
+
+
+def cross_check_real(ctx, cases, impl, per_call=None):
+    """The in-process driver builds the commands with its own CmdUtils (so that readers and the sink can be made to fail); the
+    program's own `main`, `NewCmdUtils` and command constructors are therefore only run by the real binary.  A sample of the
+    cases of every run_apps call (those without injected faults) is run as a separate process of the untagged binary and
+    compared with the driver's observation: same success / failure, same bytes on stdout."""
+    k = per_call if per_call is not None else (12 if ctx.tier == "quick" else 40)
+    plain = [c for c in cases if not c.read_fail and c.sink_fail is None and impl[c.id].get('status') in ('ok', 'err')
+             and b'gen' not in c.path[:1]]
+    if not plain or k <= 0:
+        return
+    step = max(1, len(plain) // k)
+    picked = plain[::step][:k]
+    binary = ctx.real()
+    for c in picked:
+        files = dict(c.files)
+        home_config = None
+        if c.cfg and c.cfg.get('exists'):
+            if c.cfg['where'] == 'default':
+                home_config = c.config_text()
+            else:
+                files[c.cfg['path'].encode() if isinstance(c.cfg['path'], str) else c.cfg['path']] = c.config_text()
+        env_extra = {ENV_NAMES[k_]: (v if isinstance(v, str) else (v.decode('utf-8', 'surrogateescape') if isinstance(v, bytes) else str(v))) for k_, v in c.env.items()}
+        try:
+            rc, out, err = core.run_real_binary(binary, c.argv(), files, env_extra=env_extra, tz=c.tz, home_config=home_config)
+        except Exception as e:          # a name that cannot be a file name, a NUL in an argument, a timeout
+            ctx.count('real-binary:not-runnable')
+            continue
+        i = impl[c.id]
+        ctx.evaluations += 1
+        same = ((rc == 0) == (i.get('status') == 'ok')) and core.canon_out(out) == out_of(i)
+        ctx.op('real-binary = driver', same)
+        if not same:
+            ctx.problem('corr', 'the real binary and the in-process driver disagree for `%s` (exit status %d vs %s)' % (c.meta.get('kind', '?'), rc, i.get('status')), c,
+                        {'real_stdout': out.decode('utf-8', 'replace')[:800], 'real_stderr': err.decode('utf-8', 'replace')[:300], 'driver': summarize(i)})
 
 
 def summarize(o):
